@@ -19,7 +19,8 @@ _HARDWIRE_KNOWN = True      # while developing: exclusions active without known_
 
 def _known(fid, verdict):
     if _HARDWIRE_KNOWN:
-        return bool(verdict)
+        import os
+        return bool(verdict) and not os.environ.get("VP_NO_EXCLUDE")
     return R.known(fid, verdict)
 
 
@@ -126,14 +127,16 @@ def _path(d, name):
 
 
 def _lab(s):
-    return 1 <= len(s) <= R.M(1)
+    """every key, value and suffix of one call has the same length VP_LL (labels of different lengths are
+    trivially unequal; variable lengths would fork 2**10 ways before the target is entered)"""
+    return len(s) == R.env_int("VP_LL", 1)
 
 
 def sidecar_applies(k1: str, v1: str, k2: str, v2: str, n_s: int, fk1: str, fv1: str, fk2: str, fv2: str,
                     n_f: int, ssuf: str, fsuf: str, sd: int, fd: int, itself: bool) -> bool:
     """
     pre: 0 <= n_s <= 2 and 0 <= n_f <= 2 and 0 <= sd <= 4 and 0 <= fd <= 4
-    pre: _envcell(ns=n_s, nf=n_f, sd=sd)
+    pre: _envcell(ns=n_s, nf=n_f)
     pre: _lab(k1) and _lab(v1) and _lab(k2) and _lab(v2) and _lab(fk1) and _lab(fv1) and _lab(fk2) and _lab(fv2)
     pre: _lab(ssuf) and _lab(fsuf)
     pre: k1 != k2 and fk1 != fk2
@@ -384,14 +387,14 @@ HARNESSES = [
         outside="longer labels; keys beyond {a,b,c}"),
     R.H("sidecar_applies", _T_APPL,
         quick=R.tier(cells=R.product_cells(R.int_cells("VP_NS", 0, 2), R.int_cells("VP_NF", 0, 2)),
-                     env={"VP_M": 1}, timeout=150,
+                     env={"VP_LL": 1}, timeout=150,
                      bound="sidecar and file entity maps of 0..2 entries with keys/values any 1-character string, "
                            "suffixes any 1-character string, directories any of 5 fixed ones (root, sub-1, "
                            "sub-1/ses-1, sub-10, sub-1/ses-2), or the sidecar tested against itself"),
         thorough=R.tier(cells=R.product_cells(R.int_cells("VP_NS", 0, 2), R.int_cells("VP_NF", 0, 2),
-                                              R.int_cells("VP_SD", 0, 4)),
-                        env={"VP_M": 2}, timeout=1000, path_timeout=60,
-                        bound="as quick with keys, values and suffixes any string of 1..2 characters"),
+                                              R.int_cells("VP_LL", 1, 3)),
+                        env={}, timeout=600, path_timeout=60,
+                        bound="as quick with keys, values and suffixes any strings of one common length L in 1..3"),
         what="is_sidecar_for(f) <=> same suffix and sidecar directory is ancestor-or-self of f's directory and every "
              "sidecar entity occurs in f with the same value",
         oracle="models/bids_ref.py applicable", stubs=[_S_BARE, _S_DIRS],
@@ -427,8 +430,11 @@ HARNESSES = [
         oracle="models/bids_ref.py merge", stubs=[_S_JSON],
         outside="JSON decoding; column names beyond {a,b,c} (dict.update hashes them, CrossHair enumerates)"),
     R.H("group_merged_sidecar", _T_GROUP,
-        quick=R.tier(cells=R.product_cells(R.int_cells("VP_FD", 0, 3), R.int_cells("VP_AD", 0, 3)),
-                     env={"VP_NSC": 2, "VP_N": 1, "VP_M": 1, "VP_NDIRS": 4}, timeout=150, bound=_WALK_BOUND_Q % 1),
+        quick=R.tier(cells=R.product_cells(R.int_cells("VP_FD", 0, 2), R.int_cells("VP_AD", 0, 2)),
+                     env={"VP_NSC": 2, "VP_N": 1, "VP_M": 1, "VP_NDIRS": 3}, timeout=150,
+                     bound=(_WALK_BOUND_Q % 1).replace("4 directories (root, sub-1, sub-1/ses-1, sub-10)",
+                                                       "3 directories (root, sub-1, sub-1/ses-1)")
+                     .replace("the 4 directories", "the 3 directories")),
         thorough=R.tier(cells=R.product_cells(R.int_cells("VP_FD", 0, 4), R.int_cells("VP_AD", 0, 4),
                                               R.int_cells("VP_BD", 0, 4)),
                         env={"VP_NSC": 3, "VP_N": 1, "VP_M": 2, "VP_NDIRS": 5}, timeout=1000, path_timeout=60,
